@@ -1,7 +1,7 @@
 (* C01 — lemmas about the factor bits, the sufficientAuthLevel loop and check_auth as
    certGenHandler calls it (requiredAuthType = AuthTypeAny).  (Proofs/Auth*.v is reserved for C06.) *)
 From Coq Require Import ZArith.
-From KM Require Import Base.Bytes Base.Tactics Model.Auth Model.Certgen Proofs.CertgenSpec.
+From KM Require Import Base.Bytes Base.Tactics Model.Auth Model.Certgen Model.CertgenCases Proofs.CertgenSpec.
 Open Scope N_scope.
 
 Lemma land_pow2 l k : N.land l (2 ^ k) = if N.testbit l k then 2 ^ k else 0.
@@ -170,43 +170,145 @@ Proof.
     destruct H as [A [B [C D]]]; discriminate.
 Qed.
 
-Lemma token_ok_valid now t :
-  token_ok now t = true /\ (t_exp t <? now)%Z = false <-> valid_session now t.
+Lemma aud0_is_spec aud x : aud0_is aud x = true <-> exists rest, aud = x :: rest.
 Proof.
-  unfold token_ok, valid_session. rewrite !andb_true_iff, negb_true_iff, N.eqb_eq, Z.leb_le, Z.ltb_ge.
+  destruct aud as [|a r]; simpl.
+  - split; [discriminate|]. intros [rest H]. discriminate.
+  - rewrite bs_eqb_eq. split; [intros ->; eauto|]. intros [rest H]. inversion H. reflexivity.
+Qed.
+
+(* the cookie branch's tests on the wire token, with iss / aud compared as strings *)
+Lemma token_ok_valid issuer now w :
+  token_ok now (token_of issuer w) = true /\ (w_exp w <? now)%Z = false <-> valid_session issuer now w.
+Proof.
+  unfold token_ok, valid_session, token_of. cbn.
+  rewrite !andb_true_iff, negb_true_iff, N.eqb_eq, Z.leb_le, Z.ltb_ge, bs_eqb_eq, aud0_is_spec.
   tauto.
 Qed.
 
-Lemma cookie_branch_sound now lim q u level iat :
-  cookie_branch_any now lim (q_cred q) = Admit u level iat -> proves now q u level.
+Lemma valid_session_b_iff issuer now w : valid_session_b issuer now w = true <-> valid_session issuer now w.
 Proof.
-  unfold cookie_branch_any. destruct (q_cred q) as [|bu ok berr|t] eqn:C; [discriminate| |].
-  - destruct lim; simpl; [|discriminate]. destruct berr; [discriminate|]. destruct ok; [|discriminate].
-    intro H. inversion H; subst. apply P_password; [exact C|reflexivity].
-  - destruct (token_ok now t) eqn:T; simpl; [|discriminate].
-    destruct (t_exp t <? now)%Z eqn:E; [discriminate|].
-    destruct (hasb (t_level t) bAny); simpl; [|discriminate].
-    intro H. inversion H; subst. eapply P_session; eauto. apply token_ok_valid. auto.
+  unfold valid_session_b, valid_session.
+  rewrite !andb_true_iff, negb_true_iff, N.eqb_eq, !Z.leb_le, bs_eqb_eq, aud0_is_spec. tauto.
 Qed.
 
-Lemma check_auth_sound now lim q u level iat :
-  check_auth now lim bAny (auth_request q) = Admit u level iat -> proves now q u level.
+Lemma cookie_branch_sound st now lim q u level iat :
+  cookie_branch_any now lim (carried_cred st q) = Admit u level iat -> proves st now q u level.
+Proof.
+  unfold cookie_branch_any, carried_cred.
+  destruct (q_cookie q) as [w|] eqn:C.
+  - destruct (token_ok now (token_of (issuer_of st) w)) eqn:T; simpl; [|discriminate].
+    change (t_exp (token_of (issuer_of st) w)) with (w_exp w).
+    change (t_level (token_of (issuer_of st) w)) with (w_level w).
+    change (t_sub (token_of (issuer_of st) w)) with (w_sub w).
+    destruct (w_exp w <? now)%Z eqn:E; [discriminate|].
+    destruct (hasb (w_level w) bAny); simpl; [|discriminate].
+    intro H. inversion H; subst. eapply P_session; eauto. apply token_ok_valid. auto.
+  - destruct (q_basic q) as [b|] eqn:B; [|discriminate].
+    destruct lim; simpl; [|discriminate]. destruct (b_err b) eqn:BE; [discriminate|].
+    destruct (b_ok b) eqn:BO; [|discriminate].
+    intro H. inversion H; subst. eapply P_password; eauto.
+Qed.
+
+Lemma csrf_none_or_refuse (q : certreq) x :
+  (if match q_method q with HGet => true | _ => false end then None
+   else match q_origin q with BadOrigin => Some (Refuse 400) | CrossOrigin => Some (Refuse 401) | _ => None end) = Some x ->
+  exists code, x = Refuse code.
+Proof.
+  destruct (q_method q); destruct (q_origin q); try discriminate; intro H; inversion H; eauto.
+Qed.
+
+(* what checkAuth returns when a client certificate is presented (AuthTypeAny): the certificate
+   alone decides *)
+Definition tls_result (now : Z) (c : tlsinfo) : result :=
+  match ip_restricted c, km_signed c with
+  | IpOk, Some _ => Admit (c_cn c) (N.lor bKMX509 bIPCert) now
+  | IpOk, None => Admit (c_cn c) bIPCert now
+  | _, Some (u, nb) => Admit u bKMX509 nb
+  | IpUserErr, None => Refuse 403
+  | IpErr, None => Refuse 500
+  end.
+
+Lemma tls_result_sound st now q c u level iat :
+  q_tls q = Some c -> names_somebody st c -> tls_result now c = Admit u level iat -> cert_proves st q u level.
+Proof.
+  intros TL NS. unfold tls_result.
+  destruct (ip_restricted c) eqn:IP; destruct (km_signed c) as [[ku knb]|] eqn:KM;
+    intro H; inversion H; subst; clear H.
+  - apply km_signed_some in KM. destruct KM as [K _]. apply ip_restricted_ok in IP. eapply CP_both; eauto.
+  - apply ip_restricted_ok in IP. eapply CP_ip; eauto.
+  - apply km_signed_some in KM. destruct KM as [K ->]. eapply CP_km; eauto.
+  - apply km_signed_some in KM. destruct KM as [K ->]. eapply CP_km; eauto.
+Qed.
+
+Lemma cert_proves_proves st now q u level : cert_proves st q u level -> proves st now q u level.
+Proof.
+  intros [c A N B C D|c A N B C D|c A N B C D E].
+  - eapply P_km_cert; eauto.
+  - eapply P_ip_cert; eauto.
+  - eapply P_both; eauto.
+Qed.
+
+(* a certificate without a name: never a keymaster identity; refused unless the address test accepts it *)
+Lemma km_signed_without_km c : km_signed (without_km c) = None.
+Proof. unfold km_signed, without_km. cbn. destruct (c_chain2 c); cbn; [|reflexivity]. destruct (c_issuer c); destruct (c_denied c); reflexivity. Qed.
+Lemma ip_restricted_without_km c : ip_restricted (without_km c) = ip_restricted c.
+Proof. reflexivity. Qed.
+Lemma tls_result_nameless now c : ip_restricted c <> IpOk -> exists code, tls_result now (without_km c) = Refuse code.
+Proof.
+  intro N. unfold tls_result. rewrite km_signed_without_km, ip_restricted_without_km.
+  destruct (ip_restricted c); [contradiction| |]; eauto.
+Qed.
+
+Lemma effective_tls_named st q c : q_tls q = Some c -> names_somebody st c -> effective_tls st q = Some c.
+Proof.
+  intros TL NS. unfold effective_tls. rewrite TL. unfold names_somebody in NS.
+  destruct (s_name st (c_cn c)); [contradiction NS; reflexivity|reflexivity].
+Qed.
+Lemma effective_tls_none st q : q_tls q = None -> effective_tls st q = None.
+Proof. intro TL. unfold effective_tls. rewrite TL. reflexivity. Qed.
+
+Lemma check_auth_sound st now lim q u level iat :
+  check_auth now lim bAny (auth_request st q) = Admit u level iat -> proves st now q u level.
 Proof.
   rewrite check_auth_any_eq. unfold check_auth_any. cbn [auth_request r_get r_origin r_tls r_cred].
   set (csrf := if match q_method q with HGet => true | _ => false end then None else _).
   destruct csrf as [x|] eqn:CS.
-  - subst csrf. destruct (q_method q); destruct (q_origin q); try discriminate;
-      inversion CS; subst; discriminate.
-  - clear CS csrf. destruct (q_tls q) as [c|] eqn:TL.
-    + destruct (ip_restricted c) eqn:IP; destruct (km_signed c) as [[ku knb]|] eqn:KM;
-        intro H; inversion H; subst; clear H.
-      * apply km_signed_some in KM. destruct KM as [K _]. apply ip_restricted_ok in IP.
-        eapply P_both; eauto.
-      * apply ip_restricted_ok in IP. eapply P_ip_cert; eauto.
-      * apply km_signed_some in KM. destruct KM as [K ->]. eapply P_km_cert; eauto.
-      * apply km_signed_some in KM. destruct KM as [K ->]. eapply P_km_cert; eauto.
+  - subst csrf. apply csrf_none_or_refuse in CS. destruct CS as [code ->]. discriminate.
+  - clear CS csrf. unfold effective_tls. destruct (q_tls q) as [c|] eqn:TL.
+    + destruct (s_name st (c_cn c)) as [|n0 nr] eqn:NM.
+      * destruct (ip_restricted c) eqn:IP.
+        -- apply cookie_branch_sound.
+        -- intro H. destruct (tls_result_nameless now c) as [code E]; [rewrite IP; discriminate|].
+           unfold tls_result in E. rewrite E in H. discriminate.
+        -- intro H. destruct (tls_result_nameless now c) as [code E]; [rewrite IP; discriminate|].
+           unfold tls_result in E. rewrite E in H. discriminate.
+      * intro H. apply cert_proves_proves. eapply tls_result_sound; eauto.
+        unfold names_somebody. rewrite NM. discriminate.
     + apply cookie_branch_sound.
 Qed.
+
+(* with a client certificate that names somebody on the connection the answer of checkAuth does not
+   depend on the cookie or the Basic header, and an admission is the certificate's own *)
+Lemma check_auth_with_cert st now lim q c :
+  q_tls q = Some c -> names_somebody st c ->
+  check_auth now lim bAny (auth_request st q) =
+  match (if match q_method q with HGet => true | _ => false end then None
+         else match q_origin q with BadOrigin => Some (Refuse 400) | CrossOrigin => Some (Refuse 401) | _ => None end) with
+  | Some x => x
+  | None => tls_result now c
+  end.
+Proof.
+  intros TL NS. rewrite check_auth_any_eq. unfold check_auth_any. cbn [auth_request r_get r_origin r_tls r_cred].
+  rewrite (effective_tls_named st q c TL NS). reflexivity.
+Qed.
+
+Lemma csrf_cases (q : certreq) :
+  (exists code, (if match q_method q with HGet => true | _ => false end then None
+                 else match q_origin q with BadOrigin => Some (Refuse 400) | CrossOrigin => Some (Refuse 401) | _ => None end) = Some (Refuse code)) \/
+  (if match q_method q with HGet => true | _ => false end then None
+   else match q_origin q with BadOrigin => Some (Refuse 400) | CrossOrigin => Some (Refuse 401) | _ => None end) = None.
+Proof. destruct (q_method q); destruct (q_origin q); eauto. Qed.
 
 (* every refusal of checkAuth carries an error status *)
 Lemma check_auth_refuse_code now lim r code :
